@@ -353,11 +353,16 @@ func (bucket *Bucket) inTransaction(fn func(txn *sql.Tx) error) error {
 		if err != nil {
 			break
 		}
+		verifPoint("txn.begin")
 
 		err = fn(txn)
 
 		if err == nil {
+			verifPoint("txn.precommit")
 			err = txn.Commit()
+			if err == nil {
+				verifPoint("txn.postcommit")
+			}
 		}
 
 		if err != nil {
